@@ -425,6 +425,11 @@ def findInv (c : Ctx) (condT : AEnv → Option AEnv) (bodyF : AEnv → Bool × A
 
 def loopRounds : Nat := 3
 
+/-- run a branch in a refined state; an unreachable branch (`none`) contributes nothing -/
+def optCheck (f : AEnv → Bool × AOut) : Option AEnv → Bool × AOut
+  | none => (true, AOut.bot)
+  | some s => f s
+
 def checkS (c : Ctx) : Stmt → AEnv → Bool × AOut
   | .skip, s => (true, ⟨some s, none, none⟩)
   | .assign id x e, s =>
@@ -450,12 +455,8 @@ def checkS (c : Ctx) : Stmt → AEnv → Bool × AOut
       (ok1 && ok2, ⟨o2.normal, ojoin c.vars.length o1.brk o2.brk, ojoin c.vars.length o1.cont o2.cont⟩)
   | .ite cnd a b, s =>
     let (ok0, _) := checkE c s cnd
-    let (ok1, o1) := match assume c cnd true s with
-      | none => (true, AOut.bot)
-      | some st => checkS c a st
-    let (ok2, o2) := match assume c cnd false s with
-      | none => (true, AOut.bot)
-      | some sf => checkS c b sf
+    let (ok1, o1) := optCheck (fun st => checkS c a st) (assume c cnd true s)
+    let (ok2, o2) := optCheck (fun sf => checkS c b sf) (assume c cnd false s)
     (ok0 && ok1 && ok2, ⟨ojoin c.vars.length o1.normal o2.normal, ojoin c.vars.length o1.brk o2.brk, ojoin c.vars.length o1.cont o2.cont⟩)
   | .while cnd body, s =>
     let inv := findInv c (assume c cnd true) (fun s' => checkS c body s') (assigned body) loopRounds s
